@@ -63,6 +63,16 @@ func main() {
 		runC15(ctx)
 	case "C16":
 		runC16(ctx)
+	case "C19":
+		runC19(ctx)
+	case "C17":
+		runC17(ctx)
+	case "C12":
+		runC12(ctx)
+	case "C11":
+		runC11(ctx)
+	case "C07":
+		runC07(ctx)
 	case "C13":
 		runC13(ctx)
 	case "C14":
